@@ -13,7 +13,10 @@ class OnUpdateAdapter:
     def reset(self, init):
         d = self.desper
         self.w = d.World()
-        self.w.add_processor(d.OnUpdateProcessor())
+        self.proc = d.OnUpdateProcessor()
+        self.w.add_processor(self.proc)
+        self.gen = 0
+        self.old = []
         self.got = []
         self.fault = None
         got = self.got
@@ -22,7 +25,7 @@ class OnUpdateAdapter:
         @d.event_handler('on_update')
         class Listener:
             def on_update(self, dt):
-                got.append((self.name, dt))
+                got.append((self.name, dt) if self.gen == outer.gen else (self.name, dt, 'WORLD-LEFT-BEHIND'))
                 if outer.fault == self.name:
                     outer.fault = None
                     raise Boom()
@@ -38,9 +41,21 @@ class OnUpdateAdapter:
         if name == 'Attach':
             o = self.cls()
             o.name = args[0]
+            o.gen = self.gen
             self.ent[args[0]] = w.create_entity(o)
         elif name == 'Detach':
             w.delete_entity(self.ent.pop(args[0]), immediate=True)
+        elif name == 'Reinstall':
+            # the old world stays alive with its listeners (they must hear nothing any more); everybody moves
+            self.old.append(w)
+            self.gen += 1
+            w = self.w = self.desper.World()
+            w.add_processor(self.proc)
+            for n in sorted(self.ent):
+                o = self.cls()
+                o.name = n
+                o.gen = self.gen
+                self.ent[n] = w.create_entity(o)
         elif name == 'Frame':
             _v, ex = guarded(lambda: w.process(args[0]))
         elif name == 'FrameFault':
